@@ -68,6 +68,18 @@ CLAIMED = {
          "Return values, close counts, handler stamps, goroutine stacks and race reports are checked on generated histories and sampled concurrent schedules.",
          "Collector Close succeeds and Read eventually returns under WithNoConnClose (the property's preconditions); schedules are sampled.",
          "DESIGN.md section 4, C15"),
+ "C16": ("exhaustive small-alphabet enumeration plus grammar/mutation-based generation of URI strings, each parsed by a supervised child process with a 1 MiB stack cap; worker death, recovered panic or silence is the oracle",
+         "All strings over a 20-symbol alphabet up to a stated length after each scheme prefix are enumerated; longer/odd inputs (non-ASCII, control bytes, up to 1 MiB) are sampled. A fatal stack overflow cannot be recovered in-process, hence the isolated worker.",
+         "1 MiB of stack and 30 s per input are taken as 'bounded by the input length' (three/six orders of magnitude above the legitimate cost).",
+         "DESIGN.md section 4, C16"),
+ "C17": ("property-based testing with expectation by construction: URIs are built from generated components so the expected fields are known without a second parser; full component product enumerated; generic invariant + format/parse round-trip on mutated strings; DialURI run against an injected in-memory transport.Net and the bytes on the wire inspected",
+         "Parse results are compared with the reference expectation of the generated components; DialURI's requested (network,address), handshake record type, server name and absence of plaintext are observed on in-memory connections.",
+         "Where the statement is silent (signed/empty port, bare '?', empty/repeated transport, upper-case scheme) either outcome is accepted. The DTLS path uses the system resolver (localhost/IP literals).",
+         "DESIGN.md section 4, C17"),
+ "C18": ("model-based (stateful) property testing of the pooled HMAC API against a shadow crypto/hmac object and an RFC 2104 implementation by definition; concurrent variant under the race detector",
+         "Operation sequences over up to three simultaneously held pooled handles are generated and shrunk as one value; every Sum is compared with two independent oracles.",
+         "sync.Pool recycling is likely but not guaranteed per case; recycling across the 64-byte key boundary is counted from the plan.",
+         "DESIGN.md section 4, C18"),
  "C19": ("exhaustive generated-input differential against a bit-by-bit RFC 5389 figure-3 reference (complete domain)",
          "Every (method,class) pair and every 16-bit wire value is generated and compared with an independent bit-by-bit reference; the domain is finite and enumerated completely.",
          "Trusts the harness's transcription of RFC 5389 figure 3 (ref.TypeValue/TypeRead, self-checked on known type values).",
